@@ -434,7 +434,7 @@ except ImportError:
             if state == _UTF8_REJECT:
                 return False
 
-        return True
+        return state == _UTF8_ACCEPT
 
 
 def validate_utf8(utfbytes: Union[str, bytes]) -> bool:
